@@ -308,6 +308,14 @@ def check(run):
             samples.append({"family": evs[0]["fam"], "reference": evs[0]["ref"],
                             "reports": [[e["ac"], e["ts"], "surf" if e["kind"] else "air", e["par"], e["L"], e["M"],
                                          e["inter"]["o"], e["inter"].get("err", -1)] for e in evs[1:9]]})
+    # the work directory holds gigabytes in the thorough tier: keep only what a reader may want to look at
+    for res in results:
+        if not res["why"] and os.path.getsize(res["trace"]) > 50 * 2 ** 20:
+            os.remove(res["trace"])
+    for s in range(n_hshards):
+        hp = os.path.join(run.work, f"hist.{s}.ndjson")
+        if os.path.getsize(hp) > 20 * 2 ** 20:
+            os.remove(hp)
     run.cov.update({
         "traces_validated_against_impl": tot["scenarios"],
         "evaluations": tot["reports"],
